@@ -121,7 +121,7 @@ def coreCase (c : Case) : String :=
   | .ok prog =>
     match Core.fromAst prog with
     | none => s!"{c.id}\tcore\tnotcore\t0\t0\t0\t"
-    | some (params, body) =>
+    | some pr =>
       match Asm.load c.asm c.args with
       | .error e => s!"{c.id}\tcore\tasmerror:{e.replace "\t" " "}\t0\t0\t0\t"
       | .ok l =>
@@ -130,21 +130,21 @@ def coreCase (c : Case) : String :=
         | .error e => s!"{c.id}\tcore\tasmerror:{e}\t0\t0\t0\t"
         | .ok args =>
         let cf : Core.Config := { w := optNat "w" 2, stackWords := optNat "stackwords" 0, checked := !c.opts.contains "unchecked" }
-        let m := Core.coreProg cf params body
-        let i := Core.coreInit cf args body
+        let m := Core.coreProg cf pr
+        let i := Core.coreInit cf args pr
         let firstDiff : Option Nat := (List.range (max m.code.size l.prog.code.size)).find? (fun k => m.code[k]? != l.prog.code[k]?)
         let verdict :=
-          if !(Core.wfS params body && Core.youLevel body && params.Nodup && args.length == params.length) then "diff:not-well-formed"
+          if !(Core.wfProg pr && args.length == pr.params.length) then "diff:not-well-formed"
           else if m.w != l.prog.w then "diff:word-size"
           else if let some k := firstDiff then s!"diff:code@{k}:model={repr (m.code[k]?)}:real={repr (l.prog.code[k]?)}".replace "\n" " "
           else if m.const.data != l.prog.const.data then "diff:const"
           else if i.pc != l.init.pc then "diff:entry"
           else if i.mem.data != l.init.mem.data then s!"diff:state:model={i.mem.data.size}:real={l.init.mem.data.size}"
           else "ok"
-        let tr := match Core.runCore cf.w c.fuel params args body with
+        let tr := match Core.runCore cf c.fuel args pr with
           | none => "fuel"
           | some evs => VM.renderTrace evs.toArray
-        s!"{c.id}\tcore\t{verdict}\t{m.code.size}\t0\t0\t{tr}"
+        s!"{c.id}\tcore\t{verdict}\t{m.code.size}\t{pr.funs.length}\t0\t{tr}"
 
 def runCase (c : Case) : String :=
   if c.opts.contains "core" then coreCase c else
